@@ -895,7 +895,10 @@ async fn c18_round(seed: u64, r: u64, k: usize, entry: u64, pre_yield: bool) -> 
                 }
             }
             let id = 1000 + t as u64;
-            let ok = match (entry + t as u64) % 4 {
+            let which = (entry + t as u64) % 8;
+            // entry points 4..7 make the first use a DELETE: it must end up as a tombstone in the state
+            let is_del = which >= 4;
+            let ok = match which {
                 // first use directly through the group
                 0 => {
                     let ks = group.get_or_create_keyspace(&ksn).await;
@@ -911,25 +914,56 @@ async fn c18_round(seed: u64, r: u64, k: usize, entry: u64, pre_yield: bool) -> 
                     c.multi_put(ksn.clone(), [doc(id, stamp)].into_iter(), 77, SocketAddr::from(([10, 77, 0, 1], 1))).await.is_ok()
                 },
                 // repair: a peer asks for the state first (creates the keyspace), then a write arrives
-                _ => {
+                3 => {
                     let mut rc = ecv::ReplicationClient::<HStore<MemStore>>::new(Clock::new(202), chan);
                     let _ = rc.get_state(ksn.clone()).await;
                     let ks = group.get_or_create_keyspace(&ksn).await;
                     ks.send(ecv::Set { source: 1, doc: doc(id, stamp), ctx: None, _marker: PhantomData }).await.is_ok()
                 },
+                // incoming replication of deletes: remove, multi-remove, and the distributor's batch message
+                4 => {
+                    let mut c = ecv::ConsistencyClient::<HStore<MemStore>>::new(Clock::new(203), chan);
+                    c.del(ksn.clone(), id, stamp).await.is_ok()
+                },
+                5 => {
+                    let mut c = ecv::ConsistencyClient::<HStore<MemStore>>::new(Clock::new(204), chan);
+                    let mut v: SmallVec<[DocumentMetadata; 4]> = SmallVec::new();
+                    v.push(DocumentMetadata::new(id, stamp));
+                    c.multi_del(ksn.clone(), v).await.is_ok()
+                },
+                6 => {
+                    let clock = Clock::new(205);
+                    let timestamp = clock.get_time().await;
+                    let mut c = ecv::ConsistencyClient::<HStore<MemStore>>::new(clock, chan);
+                    let mut docs: SmallVec<[DocumentMetadata; 4]> = SmallVec::new();
+                    docs.push(DocumentMetadata::new(id, stamp));
+                    let mut removed = SmallVec::new();
+                    removed.push(ecv::MultiRemovePayload { keyspace: ksn.clone(), documents: docs, timestamp });
+                    let batch = ecv::BatchPayload { timestamp, modified: SmallVec::new(), removed };
+                    c.apply_batch(&batch).await.is_ok()
+                },
+                // a delete through the group itself
+                _ => {
+                    let ks = group.get_or_create_keyspace(&ksn).await;
+                    ks.send(ecv::Del { source: 0, doc: DocumentMetadata::new(id, stamp), _marker: PhantomData }).await.is_ok()
+                },
             };
-            (id, stamp, ok)
+            (id, stamp, ok, is_del)
         }));
     }
     let mut acked = Vec::new();
+    let mut acked_dels = Vec::new();
     for h in handles {
         match h.await {
-            Ok((id, stamp, true)) => acked.push((id, stamp)),
+            Ok((id, stamp, true, false)) => acked.push((id, stamp)),
+            Ok((id, stamp, true, true)) => acked_dels.push((id, stamp)),
             Ok(_) => {},
             Err(e) => out.inconclusive = Some(format!("task failed: {e}")),
         }
     }
     acked.sort();
+    acked_dels.sort();
+    out.count("first_uses_that_were_deletes", acked_dels.len() as u64);
     let creations = ecv::take_add_state_calls(&ksn);
     out.count("first_uses", k as u64);
     out.count("keyspace_states_created", creations as u64);
@@ -951,6 +985,14 @@ async fn c18_round(seed: u64, r: u64, k: usize, entry: u64, pre_yield: bool) -> 
     match set_of(&ks).await {
         Ok(set) => {
             let listing = enumerate(&set);
+            let missing_dels: Vec<_> = acked_dels.iter().filter(|a| !listing.1.contains(a)).collect();
+            if !missing_dels.is_empty() {
+                out.violate(
+                    "C18:acknowledged-delete-missing-from-the-keyspace-state",
+                    json!({"concurrent_first_uses": k, "states_created": creations, "acknowledged_deletes": acked_dels.len(),
+                        "missing": missing_dels.iter().map(|m| json!([m.0, ts_json(m.1)])).collect::<Vec<_>>(), "state": listing_json(&listing)}),
+                );
+            }
             let missing: Vec<_> = acked.iter().filter(|a| !listing.0.contains(a)).collect();
             if !missing.is_empty() {
                 out.violate(
@@ -1101,7 +1143,7 @@ pub fn c18(args: &Args) {
     let mut report = Report::new(
         args,
         "E1-actor",
-        "k in 2..8 tasks concurrently make the first use of a fresh keyspace name on one real KeyspaceGroup through different entry points (get_or_create_keyspace + Set; ConsistencyService put / multi_put over the in-memory transport; ReplicationService GetState followed by a repair-sourced Set) and send one mutation each (distinct ids, distinct origins, stamps inside one window so every one applies). A later lookup's serialized set must contain every acknowledged operation and agree with storage. Runtimes: current-thread (the awaits inside add_state yield naturally; task order rotated) and multi-thread with 2/4/16 workers and random pre-yields. Second scenario: node B runs a repair from a peer A that already holds 1..40 keyspace names (the repair path creates them on B) while the first local uses of those same names (group, consistency put / multi_put) arrive at B; every acknowledged operation must be in the state a later lookup serializes, set == store. A creation counter (hook H6) observes how many states were created per name. Non-trivial = >= 2 states were created for the name (first uses overlapped); distinct = distinct (round, k, entry rotation, creations).",
+        "k in 2..8 tasks concurrently make the first use of a fresh keyspace name on one real KeyspaceGroup through different entry points (get_or_create_keyspace + Set; ConsistencyService put / multi_put over the in-memory transport; ReplicationService GetState followed by a repair-sourced Set; first uses that are DELETES: consistency remove / multi_remove, the distributor's batch message with a 'removed' half only, Del through the group) and send one mutation each (distinct ids, distinct origins, stamps inside one window so every one applies). A later lookup's serialized set must contain every acknowledged operation and agree with storage. Runtimes: current-thread (the awaits inside add_state yield naturally; task order rotated) and multi-thread with 2/4/16 workers and random pre-yields. Second scenario: node B runs a repair from a peer A that already holds 1..40 keyspace names (the repair path creates them on B) while the first local uses of those same names (group, consistency put / multi_put) arrive at B; every acknowledged operation must be in the state a later lookup serializes, set == store. A creation counter (hook H6) observes how many states were created per name. Non-trivial = >= 2 states were created for the name (first uses overlapped); distinct = distinct (round, k, entry rotation, creations).",
     );
     let seed = args.seed;
     let rounds = args.pick(40_000, 1_000_000);
@@ -1154,6 +1196,7 @@ pub fn c18(args: &Args) {
         }
     }
     report.floor("first_uses", 10_000);
+    report.floor("first_uses_that_were_deletes", 5_000);
     report.floor("rounds_with_overlapping_first_use", 100);
     report.floor("first_uses_during_a_repair", 10_000);
     report.floor("keyspaces_synchronised_by_the_repair", 5_000);
@@ -1343,6 +1386,33 @@ async fn c19_case(seed: u64, i: u64, entries: usize, tcp: bool) -> CaseOut {
                 out.violate(format!("C19:{what}"), json!({"case": desc, "difference": diff}));
             }
         },
+    }
+    // "at the moment it answered": the same peer asks again after the sender's state changed WITHOUT a
+    // put or delete (a purge), and once more after a further put - each answer must be the state of its moment
+    if out.violations.is_empty() {
+        let ks = node.group.get_or_create_keyspace(ksn).await;
+        let _ = ks.send(ecv::PurgeDeletes(PhantomData)).await;
+        let before = enumerate(&sender).1.len();
+        sender.purge_old_deletes();
+        out.count("tombstones_purged_between_two_fetches", (before - enumerate(&sender).1.len()) as u64);
+        for step in ["after-a-purge", "after-a-further-put"] {
+            if step == "after-a-further-put" {
+                let t = ts(4_000_000_000, 7, 250);
+                let _ = ks.send(ecv::Set { source: 0, doc: doc(u64::MAX - 77, t), ctx: None, _marker: PhantomData }).await;
+                sender.insert_with_source(0, u64::MAX - 77, t);
+            }
+            let again = futures::FutureExt::catch_unwind(std::panic::AssertUnwindSafe(rc.get_state(ksn))).await;
+            out.count("states_fetched_again", 1);
+            match again {
+                Err(_) => out.violate("C19:get_state-panicked", desc.clone()),
+                Ok(Err(e)) => out.violate("C19:get_state-failed-on-intact-reply", json!({"case": desc, "error": format!("{e:?}"), "fetch": step})),
+                Ok(Ok((_last, received))) => {
+                    if let Some(diff) = equivalent(&sender, &received, &mut rng) {
+                        out.violate(format!("C19:state-fetched-again-is-not-the-senders-state-of-that-moment:{step}"), json!({"case": desc, "difference": diff}));
+                    }
+                },
+            }
+        }
     }
     out.nontrivial = Some(hash_of(&(listing.0.len(), listing.1.len(), origins, hour_scale, purge, tcp)));
     // corrupted replies must be errors, never states (in-memory transport only)
